@@ -208,6 +208,67 @@ pub struct StoreWorkload {
     pub focus: &'static str,
 }
 
+/// C10 reach: per file the writers it went through; every operation is counted under
+/// `history_<last writer of its input>-><operation>` and observers also under the depth of the
+/// history behind the file they read.
+fn history_reach(lineage: &mut BTreeMap<String, Vec<&'static str>>, op: &Op) {
+    fn weed_kind(o: &WeedOpts) -> &'static str {
+        match (o.weed.is_some(), o.ambig_missing) {
+            (true, false) => "weed",
+            (true, true) => "weed+ambig-missing",
+            (false, true) => "filter-ambig-missing",
+            (false, false) => "filter",
+        }
+    }
+    let last = |l: &BTreeMap<String, Vec<&'static str>>, f: &str| l.get(f).and_then(|v| v.last().copied()).unwrap_or("unknown");
+    let derive = |l: &mut BTreeMap<String, Vec<&'static str>>, from: &str, to: &str, kind: &'static str| {
+        probe(&format!("history_{}->{}", l.get(from).and_then(|v| v.last().copied()).unwrap_or("unknown"), kind));
+        let mut h = l.get(from).cloned().unwrap_or_default();
+        h.push(kind);
+        l.insert(to.to_string(), h);
+    };
+    match op {
+        Op::Build { out, .. } => {
+            lineage.insert(out.clone(), vec!["build"]);
+        }
+        Op::Merge { out, inputs } => {
+            let mut h = vec![];
+            for f in inputs {
+                probe(&format!("history_{}->merge", last(lineage, f)));
+                h.extend(lineage.get(f).cloned().unwrap_or_default());
+            }
+            h.push("merge");
+            lineage.insert(out.clone(), h);
+        }
+        Op::Delete { file, out, .. } => derive(lineage, file, out.as_deref().unwrap_or(file), "delete"),
+        Op::Weed { file, o, out } => derive(lineage, file, out.as_deref().unwrap_or(file), weed_kind(o)),
+        Op::Resave { file } => derive(lineage, file, file, "resave"),
+        Op::Canon { file, observers } => {
+            let h = lineage.get(file).cloned().unwrap_or_default();
+            let writers = h.iter().filter(|k| **k != "build").count();
+            probe(&format!("history_depth_{}_observed", writers.min(6)));
+            let mut kinds: Vec<&str> = h.iter().copied().filter(|k| *k != "build").collect();
+            kinds.sort();
+            kinds.dedup();
+            if kinds.len() >= 3 {
+                probe("history_of_three_or_more_writer_kinds_observed");
+            }
+            for o in observers {
+                let k = match o {
+                    Observer::Align(_) => "align",
+                    Observer::Distance { .. } => "distance",
+                    Observer::Map { .. } => "map",
+                    Observer::Nk => "nk",
+                    Observer::Delete { .. } => "delete",
+                    Observer::Weed { .. } => "weed",
+                };
+                probe(&format!("history_{}->observe-{}", last(lineage, file), k));
+            }
+        }
+        _ => {}
+    }
+}
+
 struct MFile {
     table: Table,
     /// sample indices per column while the file is exactly "these samples built together"
@@ -1862,10 +1923,16 @@ impl Workload for StoreWorkload {
         let mut ex = Exec { dir: &ctx.dir, c, log: vec![format!("store case focus={} samples={} ops={}", c.focus, c.samples.len(), c.ops.len())], nproc: 0, store: BTreeMap::new(), weed_sets: BTreeMap::new() };
         let mut out = Outcome::default();
         let mut relevant = 0;
+        // reach measure for C10: which writer produced the file an operation works on (probes only,
+        // nothing here draws from the PRNG or enters the event log)
+        let mut lineage: BTreeMap<String, Vec<&'static str>> = BTreeMap::new();
         for (i, op) in c.ops.iter().enumerate() {
             ex.log.push(format!("op {i}: {}", serde_json::to_string(op).unwrap_or_default()));
             match ex.step(op) {
                 Ok(()) => {
+                    if c.focus == "C10" {
+                        history_reach(&mut lineage, op);
+                    }
                     let rel = match (c.focus.as_str(), op) {
                         ("C07", Op::Merge { .. }) | ("C08", Op::Delete { .. }) | ("C13", Op::Weed { .. }) | ("C13", Op::WeedLaws { .. }) | ("C13", Op::WeedOddName { .. }) | ("C13", Op::WeedSpelling { .. }) | ("C06", Op::Align { .. }) | ("C14", Op::Distance { .. }) | ("C14", Op::DistancePermuted { .. }) | ("C10", Op::Canon { .. }) => true,
                         ("C10", Op::Build { .. }) => false,
